@@ -11,10 +11,73 @@ def proj_cors(i, m):
     return [i[0], i[1]], [m[0], m[1]]
 
 
+def proj_route_all(i, m):
+    # (class status allow invoked params selpath selok)
+    return i, m
+
+
+def proj_route_c01(i, m):
+    # invoked route id (or none) and the selected-route path seen by filter and handler
+    return [i[3], i[5], i[6]], [m[3], m[5], m[6]]
+
+
+def proj_route_c02(i, m):
+    # status class, Allow set, number of invocations, panic yes/no
+    return [i[0], i[1], i[2], len(i[3])], [m[0], m[1], m[2], len(m[3])]
+
+
+def proj_route_c04(i, m):
+    return [i[3], i[4]], [m[3], m[4]]
+
+
+TB_ROUTING = ['regexp.MatchString / full-segment match are oracles tabulated per case with Go\'s regexp package',
+              'RouterJSR311: compiled template expressions are modelled segment-wise (DESIGN 3.3), valid for regex '
+              'variables that cannot match "/" or the empty string and have no capture groups',
+              'sort.Sort modelled as a stable insertion sort (what Go runs for <= 12 candidates)',
+              'conditions, handlers and filters are the harness\'s behaviour scripts']
+RULE_ROUTE = ('tables (1-4 services, 0-6 routes each, overlapping templates over a tiny alphabet, all documented token '
+              'forms) and requests (72% derived from a route with 0-2 mutations, 18% adversarial paths, 10% random) from '
+              'VERIF_SEED by harness/cmd/h/route.go, both routers; distinct = distinct case text; non-trivial = outcome '
+              'class is not a plain 404')
+
 TB_GO_STDLIB_CORS = ['strings.ToLower is an oracle (tabulated per case by calling the Go standard library)',
                      'net/http Header canonicalisation and httptest.ResponseRecorder']
 
 PROPS = {
+    'C01': dict(
+        domains=[dict(name='route', quick=32000, thorough=800000)],
+        verdicts=['c01_*'],
+        project={'route': proj_route_c01},
+        prop_files=[],
+        trivial_classes=('404',),
+        rule=RULE_ROUTE, trusted_base=TB_ROUTING,
+        assumptions=['templates outside the documented forms (malformed) are compared model-vs-implementation only'],
+        explanation='Theorem Props.C01 on the Coq model of both routers + detectRoute + dispatch; differential correspondence '
+                    'on generated tables/requests; S.admits evaluated on every (invoked route, request) of the implementation.',
+    ),
+    'C02': dict(
+        domains=[dict(name='route', quick=32000, thorough=800000)],
+        verdicts=['c02_*'],
+        project={'route': proj_route_c02},
+        prop_files=[],
+        trivial_classes=('404',),
+        rule=RULE_ROUTE, trusted_base=TB_ROUTING,
+        assumptions=['request Content-Length header and ContentLength field are generated consistent in 90% of cases; '
+                     'the inconsistent rest is compared model-vs-implementation'],
+        explanation='Theorem Props.C02 (exact error cascade, at most one invocation, no panic) on the Coq model; '
+                    'differential correspondence on status / Allow set / invocation count / panic.',
+    ),
+    'C04': dict(
+        domains=[dict(name='route', quick=32000, thorough=800000)],
+        verdicts=['c04_*'],
+        project={'route': proj_route_c04},
+        prop_files=[],
+        trivial_classes=('404', '405', '415', '406'),
+        rule=RULE_ROUTE + '; for C04 only invoked requests count as non-trivial', trusted_base=TB_ROUTING,
+        assumptions=[],
+        explanation='Theorem Props.C04 (parameter map = structural bindings; substitution round trip) on the Coq model; '
+                    'differential correspondence on the parameter map seen inside the handler.',
+    ),
     'C08': dict(
         domains=[dict(name='cors', quick=24000, thorough=400000)],
         verdicts=['c08_*'],
